@@ -90,9 +90,8 @@ def parseNum (l : List Char) : Option (UInt64 × Nat) :=
     | none => none
     | some b => some (b, n2)
 
-def fmtBits (b : UInt64) : String :=
-  if (b &&& 0x7ff0000000000000) == 0x7ff0000000000000 && (b &&& 0x000fffffffffffff) != 0 then "nan"
-  else toHex64 b
+/-- raw bit pattern (the sign of a NaN is part of what the reader returns) -/
+def fmtBits (b : UInt64) : String := toHex64 b
 
 /-! protocol helpers -/
 
